@@ -18,8 +18,17 @@ K  token level (the real parser on symbolic token sequences):
         and the same acceptance;
      R7 parentheses around the whole program, and around any single atom, give the same term.
 
-Not covered: rewrites at inner sites for R1-R4, reordering of independent definitions, sequences of
-rewrites, the CLI."""
+I  the same at an INNER group, and reordering (hole-free families: a group under a binder, the same
+   applied to an argument, a group of two annotated functions).  The rewritten program is built from
+   a second view of the same symbolic nodes whose variable indices are mapped by a formula over the
+   constructor tags (inputs.MappedTerm): +1 for indices that point outside the group when a
+   definition is inserted, exchanged when two definitions are swapped:
+     I1e/I1f an unused definition appended to / put in front of the inner group
+     I2  the group's body named by a new last definition
+     I4  the group's body wrapped in `if true then .. else ..`
+     I5  the two function definitions of a group exchanged
+
+Not covered: the applied identity at inner sites, sequences of rewrites, the CLI."""
 import json
 import os
 import sys
@@ -115,7 +124,7 @@ def pipeline(ex, it, term):
     return ("accepted", e, ty, v)
 
 
-def term_obligations(kinds):
+def term_obligations(kinds, extra=None):
     def ob(ex, it, root, twin):
         info = lambda m: TC.input_case(ex, m, root)
         try:
@@ -133,37 +142,46 @@ def term_obligations(kinds):
             # accepted with unresolved holes: the known finding of C01; acceptance of such programs
             # is not a meaningful baseline
             return
-        for kind in kinds:
-            ty = None
-            if kind == "R3":
-                if a[0] != "accepted":
-                    continue
-                ty = a[2]
-            fuel = ex.fuel_left
+
+        def compare(kind, rewritten, more=None):
             try:
-                b = pipeline(ex, it, rewrite(kind, twin, ty))
+                errs2 = VecV()
+                it.call("parser", "check_definitions", [none(), Str(""), rewritten, 0, errs2])
+                b = ("rejected", len(errs2)) if len(errs2) else pipeline(ex, it, rewritten)
             except FuelExhausted:
                 ex.count("fuel:" + kind)
                 ex.fuel_left = max(ex.fuel_left, 2000)
-                continue
-            info2 = lambda m, kind=kind: dict(TC.input_case(ex, m, root), rewrite=kind)
+                return
+            except PanicEx as p:
+                # the program as written went through; its rewriting makes the real code panic
+                ex.check(False, "%s.rewritten-program-panics: %s (%s.rs:%s)" % (kind, p.msg, p.module, p.line),
+                         info=lambda m, kind=kind: dict(TC.input_case(ex, m, root), rewrite=kind, **(more or {})))
+                return
+            info2 = lambda m, kind=kind: dict(TC.input_case(ex, m, root), rewrite=kind, **(more or {}))
             if b[0] == "under-determined":
                 ex.count("rewritten-under-determined:" + kind)
-                continue
+                return
             if a[0] != b[0]:
                 ex.check(False, "%s.acceptance-changes (%s, rewritten %s)" % (kind, a[0], b[0]), info=info2)
-                continue
+                return
             if a[0] == "rejected":
                 ex.check(True, "%s.both-rejected" % kind)
-                continue
+                return
             if (a[3] is None) != (b[3] is None):
                 ex.check(False, "%s.one-run-gets-stuck" % kind, info=info2)
-                continue
+                return
             if a[3] is None:
-                continue
+                return
+            if (more or {}).get("values") == "ground":
+                # a function value contains the rewritten text itself: only ground results are observable
+                va = T.views(ex, a[3])
+                if len(va) != 1 or va[0][1] not in GROUND:
+                    ex.count("function-value-not-compared:" + kind)
+                    return
             same = T.term_eq(ex, a[3], b[3], T.EqOpts(names=False, source_ranges=False, cell_eq=lambda x, y: True))
+
             def info3(m, kind=kind, va=a[3], vb=b[3]):
-                d = dict(TC.input_case(ex, m, root), rewrite=kind)
+                d = dict(TC.input_case(ex, m, root), rewrite=kind, **(more or {}))
                 try:
                     c = T.Concretizer(ex, m)
                     d["values"] = [T.show(c.term(va), c.cells_table()), T.show(c.term(vb), c.cells_table())]
@@ -171,6 +189,15 @@ def term_obligations(kinds):
                     d["values"] = repr(e)
                 return d
             ex.check(same, "%s.value-changes" % kind, info=info3)
+        for kind in kinds:
+            ty = None
+            if kind == "R3":
+                if a[0] != "accepted":
+                    continue
+                ty = a[2]
+            compare(kind, rewrite(kind, twin, ty))
+        if extra is not None:
+            extra(ex, it, root, twin, a, compare)
     return ob
 
 
@@ -196,8 +223,250 @@ def term_factory(H, budget, alphabet, kinds, fuel):
     return make
 
 
-def wrap_json(kind, tj, ty=None):
+# =================================================================================================
+# rewrites at an inner group (I) and reordering of function definitions (I5)
+GROUND = ("IntegerLiteral", "True", "False", "Integer", "Boolean", "Type")
+INNER_LABEL = {"I1e": "an unused definition appended to an inner group",
+               "I1f": "an unused definition put in front of an inner group",
+               "I2": "the body of an inner group named by a new last definition",
+               "I4": "the body of an inner group wrapped in `if true then .. else ..`",
+               "I5": "the two function definitions of a group exchanged"}
+
+
+class RewriteSpace(TwinSpace):
+    """Twin view whose variable indices are mapped inside regions (see inputs.MappedTerm)."""
+    node_class = I.MappedTerm
+
+    def __init__(self, prefix, budget, alphabet, regions, mode):
+        self.regions = regions          # uid of a region root -> number of binders of the region that keep their index
+        self.mode = mode                # ("shift", amount) | ("swap",)
+        TwinSpace.__init__(self, prefix, budget, alphabet, scope=None)
+
+    def index_map(self, node):
+        n = node
+        while n is not None and n.uid not in self.regions:
+            n = n.parent
+        if n is None:
+            return None
+        cut = z3.IntVal(self.regions[n.uid])
+        cur = node
+        while cur is not n:
+            cut = cut + I.binder_contribution(cur.parent, cur.slot)
+            cur = cur.parent
+        cut = z3.simplify(cut)
+        if self.mode[0] == "shift":
+            a = self.mode[1]
+            return lambda idx: z3.If(idx >= cut, idx + a, idx)
+        return lambda idx: z3.If(idx == cut, cut + 1, z3.If(idx == cut + 1, cut, idx))
+
+
+def node_at(root, path):
+    n = root
+    for i in path:
+        n = n.kid(i)
+    return n
+
+
+def single_ctor(ex, node):
+    a = ex.allowed(node)
+    if len(a) != 1:
+        raise InternalError("spine node %s not decided: %s" % (node.uid, sorted(a)))
+    return next(iter(a))
+
+
+def rebuild(ex, tw_node, path, repl):
+    """The twin program with the subterm at `path` replaced."""
+    if not path:
+        return repl
+    ct = single_ctor(ex, tw_node)
+    kids = [tw_node.kid(i) for i in range(I.ARITY[ct])]
+    kids[path[0]] = rebuild(ex, kids[path[0]], path[1:], repl)
+    if ct in ("Lambda", "Pi"):
+        return T.mk(ct, [tw_node.name, tw_node.implicit, kids[0], kids[1]])
+    if ct.startswith("Let"):
+        n = I.let_n(ct)
+        return T.mk("Let", [VecV([TupleV([tw_node.space.def_name(tw_node, i), kids[2 * i], kids[2 * i + 1]]) for i in range(n)]), kids[2 * n]])
+    return T.mk(ct, kids)
+
+
+def inner_rewrite(ex, kind, spaces, twin, let_path):
+    """The rewritten program, or None if the rewrite does not apply on this path."""
+    L = node_at(twin, let_path)
+    ct = single_ctor(ex, L)
+    n = I.let_n(ct)
+    dn = lambda i: L.space.def_name(L, i)
+    if kind == "I4":
+        body = L.kid(2 * n)
+        new = T.mk("Let", [VecV([TupleV([dn(i), L.kid(2 * i), L.kid(2 * i + 1)]) for i in range(n)]), T.mk("If", [T.mk("True", []), body, body])])
+        return rebuild(ex, twin, let_path, new)
+    if kind == "I5":
+        if n != 2 or ex.allowed(L.kid(1)) != frozenset(["Lambda"]) or ex.allowed(L.kid(3)) != frozenset(["Lambda"]):
+            return None
+    M = node_at(spaces[(kind, n)].root(), let_path)
+    unused = TupleV(["unused", T.mk("Integer", []), T.mk("IntegerLiteral", [Big(0)])])
+    defs = [TupleV([dn(i), M.kid(2 * i), M.kid(2 * i + 1)]) for i in range(n)]
+    body = M.kid(2 * n)
+    if kind == "I1e":
+        new = T.mk("Let", [VecV(defs + [unused]), body])
+    elif kind == "I1f":
+        new = T.mk("Let", [VecV([unused] + defs), body])
+    elif kind == "I2":
+        new = T.mk("Let", [VecV(defs + [TupleV(["named", fresh_hole("i2", 1), body])]), T.mk("Variable", ["named", 0])])
+    elif kind == "I5":
+        new = T.mk("Let", [VecV([defs[1], defs[0]]), body])
+    else:
+        raise InternalError(kind)
+    return rebuild(ex, twin, let_path, new)
+
+
+def rewrite_spaces(budget, alphabet, let_path):
+    """One mapped view per (rewrite, group size)."""
+    u = ".".join(["p"] + [str(i) for i in let_path])
+    out = {}
+    for n in (1, 2, 3):
+        kids = ["%s.%d" % (u, s) for s in range(2 * n + 1)]
+        out[("I1e", n)] = RewriteSpace("p", budget, alphabet, {k: 0 for k in kids}, ("shift", 1))
+        out[("I2", n)] = out[("I1e", n)]
+        out[("I1f", n)] = RewriteSpace("p", budget, alphabet, {k: n for k in kids}, ("shift", 1))
+        out[("I5", n)] = RewriteSpace("p", budget, alphabet, {k: 0 for k in kids}, ("swap",))
+    return out
+
+
+def inner_factory(H, budget, alphabet, kinds, let_path, fuel, values="ground"):
+    def make():
+        ex, it = H.engine(node_budget=budget - 1, solver_timeout_ms=120000)
+        ex.fuel = fuel
+        it.max_call_depth = 700
+        sp = TC.ProgramSpace("p", budget, alphabet, scope=0)
+        tw = TwinSpace("p", budget, alphabet, scope=0)
+        spaces = rewrite_spaces(budget, alphabet, let_path)
+        root, twin = sp.root(), tw.root()
+
+        def extra(ex, it, root, twin, a, compare):
+            for kind in kinds:
+                t = inner_rewrite(ex, kind, spaces, twin, let_path)
+                if t is None:
+                    ex.count("not-applicable:" + kind)
+                    continue
+                compare(kind, t, {"let_path": list(let_path), "values": values})
+        ob = term_obligations([], extra=extra)
+
+        def body(ex):
+            it.call_depth = 0
+            try:
+                ob(ex, it, root, twin)
+            except PanicEx as p:
+                ex.check(False, "PANIC %s (%s.rs:%s)" % (p.msg, p.module, p.line), info=lambda m: TC.input_case(ex, m, root))
+        return ex, body, None
+    return make
+
+
+def inner_families():
+    """(name, alphabet, node budget, path of the group).  Hole-free programs."""
+    out = []
+    for name, alpha, budget in TC.interplay_families(False, "GHICD"):
+        # unapplied: the program's value is the function itself (acceptance is what is compared);
+        # applied: the group is evaluated away, the values are compared in full
+        path = {"alpha": [1], "applied": [0, 1], "applied_twice": [0, 0, 1]}[alpha.__name__]
+        out.append((name, alpha, budget, path, "ground" if alpha.__name__ == "alpha" else "full"))
+
+    def functions_group(node):
+        # f : int -> int = (n : int) => ..; g : int -> int = (m : int) => ..; body
+        d, s = node.depth, node.slot
+        if d == 1:
+            return ["Let2"]
+        if d == 2:
+            return ["Pi"] if s in (0, 2) else (["Lambda"] if s in (1, 3) else ["Application"])
+        if d == 3:
+            ps = node.parent.slot
+            if ps in (0, 2):
+                return ["Integer"]
+            if ps in (1, 3):
+                return ["Integer"] if s == 0 else ["Sum", "Application"]
+            return ["Variable"] if s == 0 else ["IntegerLiteral"]
+        return ["Variable"] if s == 0 else ["Variable", "IntegerLiteral"]
+    out.append(("a group of two annotated int -> int functions (possibly calling each other) and a body that uses them", functions_group, 25, [], "ground"))
+    sel = os.environ.get("C19_INNER")
+    if sel:
+        out = [f for i, f in enumerate(out) if str(i) in sel]
+    return out
+
+
+def swap_json(j, c):
+    """Exchange the indices c and c+1 (two adjacent members of a group) in term JSON."""
+    if isinstance(j, list):
+        return [swap_json(x, c) for x in j]
+    if not isinstance(j, dict):
+        return j
+    v = j.get("v")
+    out = dict(j)
+    if v == "Variable":
+        if j["index"] == c:
+            out["index"] = c + 1
+        elif j["index"] == c + 1:
+            out["index"] = c
+    elif v in ("Lambda", "Pi"):
+        out["kids"] = [swap_json(j["kids"][0], c), swap_json(j["kids"][1], c + 1)]
+    elif v == "Let":
+        n = len(j["defs"])
+        out["defs"] = [{"name": d["name"], "ann": swap_json(d["ann"], c + n), "def": swap_json(d["def"], c + n)} for d in j["defs"]]
+        out["body"] = swap_json(j["body"], c + n)
+    elif "kids" in j:
+        out["kids"] = [swap_json(x, c) for x in j["kids"]]
+    return out
+
+
+def inner_json(kind, tj, path):
+    """The same inner rewrites on term JSON (native confirmation)."""
+    def at(j, path):
+        if not path:
+            return rewrite_let(j)
+        out = dict(j)
+        i = path[0]
+        if j["v"] == "Let":
+            n = len(j["defs"])
+            if i == 2 * n:
+                out["body"] = at(j["body"], path[1:])
+            else:
+                defs = [dict(d) for d in j["defs"]]
+                defs[i // 2]["ann" if i % 2 == 0 else "def"] = at(defs[i // 2]["ann" if i % 2 == 0 else "def"], path[1:])
+                out["defs"] = defs
+        else:
+            kids = list(j["kids"])
+            kids[i] = at(kids[i], path[1:])
+            out["kids"] = kids
+        return out
+
+    def rewrite_let(L):
+        n = len(L["defs"])
+        out = dict(L)
+        unused = {"name": "unused", "ann": {"v": "Integer", "sr": None}, "def": {"v": "IntegerLiteral", "sr": None, "value": "0"}}
+        if kind == "I4":
+            out["body"] = {"v": "If", "sr": None, "kids": [{"v": "True", "sr": None}, L["body"], L["body"]]}
+            return out
+        if kind == "I5":
+            d = [{"name": x["name"], "ann": swap_json(x["ann"], 0), "def": swap_json(x["def"], 0)} for x in L["defs"]]
+            out["defs"] = [d[1], d[0]]
+            out["body"] = swap_json(L["body"], 0)
+            return out
+        c = n if kind == "I1f" else 0
+        d = [{"name": x["name"], "ann": shift_json(x["ann"], c, 1), "def": shift_json(x["def"], c, 1)} for x in L["defs"]]
+        body = shift_json(L["body"], c, 1)
+        if kind == "I1e":
+            out["defs"], out["body"] = d + [unused], body
+        elif kind == "I1f":
+            out["defs"], out["body"] = [unused] + d, body
+        else:
+            out["defs"] = d + [{"name": "named", "ann": {"v": "Unifier", "cell": 9003, "shift": 1, "sr": None}, "def": body}]
+            out["body"] = {"v": "Variable", "sr": None, "name": "named", "index": 0}
+        return out
+    return at(tj, path)
+
+
+def wrap_json(kind, tj, ty=None, path=None):
     hole = lambda c: {"v": "Unifier", "cell": c, "shift": 1, "sr": None}
+    if kind.startswith("I"):
+        return inner_json(kind, tj, path or [])
     if kind == "R1":
         return {"v": "Let", "sr": None, "defs": [{"name": "unused", "ann": hole(9001), "def": {"v": "IntegerLiteral", "sr": None, "value": "0"}}], "body": tj}
     if kind == "R2":
@@ -226,7 +495,8 @@ def confirm_term(H, label, case):
     cells2 = dict(cells)
     cells2["9001"] = None
     cells2["9002"] = None
-    b = TC.native_type_check(replay, {"t": wrap_json(kind, case["t"], ty), "cells": cells2}, run=True)
+    cells2["9003"] = None
+    b = TC.native_type_check(replay, {"t": wrap_json(kind, case["t"], ty, case.get("let_path")), "cells": cells2}, run=True)
     if "panic" in b:
         return True, "the rewritten program panics: %s" % b["panic"]
     acc_a, acc_b = "ok" in a, "ok" in b
@@ -473,10 +743,12 @@ def main():
         print(("REPRODUCED: " if reproduced else "NOT REPRODUCED: ") + detail)
         return 1 if reproduced else 0
     only = os.environ.get("C19_PARTS", "TK")
-    if "T" in only:
+    if os.environ.get("C19_ONLY_INNER"):
+        only = "I"
+    if "T" in only or "I" in only:
         c03.validate(H, 100 if quick else 400)
         budget = int(os.environ.get("C19_BUDGET", "0")) or (4 if quick else 5)
-        for kinds in (["R1", "R2"], ["R3", "R4"]):
+        for kinds in ((["R1", "R2"], ["R3", "R4"]) if "T" in only else ()):
             name = "rewrites %s of every program of <= %d nodes" % ("+".join(kinds), budget)
             t0 = time.time()
             m = parallel_explore(term_factory(H, budget, TC.WITH_HOLES, kinds, 60000), H.jobs)
@@ -486,6 +758,24 @@ def main():
             c03.handle(H, m.violations, confirm_fn=confirm_term, classify_fn=lambda l, c: None)
             for mm in H.mismatches[:4]:
                 H.log("   mismatch values: %s" % (mm["case"].get("values"),))
+        if not os.environ.get("C19_SKIP_INNER"):
+            fams = inner_families()
+            if quick and not os.environ.get("C19_INNER"):
+                # quick: the one-definition groups (plain and applied), the two-definition group under a
+                # binder, and the function group; thorough adds the applied two-definition group
+                fams = [f for f in fams if "the same function applied" not in f[0]]
+            for name, alpha, b, let_path, values in fams:
+                kinds = ["I1e", "I1f", "I2", "I4"]
+                if not let_path:
+                    kinds = ["I5"]
+                nm = "inner rewrites %s on: %s" % ("+".join(kinds), name)
+                t0 = time.time()
+                m = parallel_explore(inner_factory(H, b, alpha, kinds, let_path, 80000, values), H.jobs)
+                H.absorb_merged(nm, m)
+                H.log("%s: %d paths %s, %d obligations, %d discharged, %d workers, %.1fs" % (
+                    nm, m.stats.get("paths", 0), m.counters, m.stats.get("obligations", 0), m.stats.get("discharged", 0), m.workers, time.time() - t0))
+                c03.handle(H, m.violations, confirm_fn=confirm_term, classify_fn=lambda l, c: None)
+            H.bounds["inner sites"] = "hole-free families (a group of 2 leaf definitions under a binder; the same applied to an argument; a group of two annotated functions): %s" % "; ".join("%s = %s" % kv for kv in INNER_LABEL.items())
         H.bounds["term level"] = "closed parser-shaped programs of at most %d nodes (holes allowed); rewrites R1 (unused definition), R2 (naming), R3 (applied annotated identity, accepted programs), R4 (if true) at the root" % budget
     if "K" in only:
         import parse_common as PC
@@ -502,7 +792,7 @@ def main():
                 name, m.stats.get("paths", 0), m.counters, m.stats.get("obligations", 0), m.stats.get("discharged", 0), m.workers, time.time() - t0))
             c03.handle(H, m.violations, confirm_fn=confirm_token, classify_fn=lambda l, c: None)
         H.bounds["token level"] = "every token sequence of 1..%d tokens (names symbolic over two names): R6 swapping the names, R7 parentheses around the program and around each single atom" % nmax
-    H.bounds["outside"] = "rewrites R1-R4 at inner sites, reordering of independent definitions, sequences of rewrites, larger programs, the CLI layer"
+    H.bounds["outside"] = "inner sites other than the group of the families named above, the applied-identity rewrite at inner sites, sequences of rewrites, larger programs, the CLI layer"
     H.assumptions += ["programs satisfy the parser-output invariants (closed, hole shifts, accepted by the real check_definitions)",
                       "values are compared as terms up to names; evaluation that exhausts the fuel is not compared"]
     return H.finish()
